@@ -105,7 +105,7 @@ static void importScenario(Ctx &ctx)
     std::string root = "<?xml version=\"1.0\" encoding=\"UTF-8\"?>\n<model xmlns=\"http://www.cellml.org/cellml/2.0#\" xmlns:xlink=\"http://www.w3.org/1999/xlink\" name=\"root\">\n";
     std::string desc;
     for (int i = 0; i < n; ++i) {
-        int kind = rng.range(0, 7);
+        int kind = rng.range(0, 9);
         std::string fname = "lib" + std::to_string(i) + ".cellml";
         std::string content;
         std::string good20 = "<?xml version=\"1.0\"?><model xmlns=\"http://www.cellml.org/cellml/2.0#\" name=\"lib\"><units name=\"uu\"><unit units=\"second\"/></units><component name=\"cc\"><variable name=\"v\" units=\"uu\"/></component></model>";
@@ -129,6 +129,12 @@ static void importScenario(Ctx &ctx)
             break;
         case 6: // referenced entities missing
             content = "<?xml version=\"1.0\"?><model xmlns=\"http://www.cellml.org/cellml/2.0#\" name=\"lib\"><component name=\"other\"/></model>";
+            break;
+        case 8: // 1.1 AND an error (not an XML one) in the imported items: version message + copied errors, some deleted later
+            content = "<?xml version=\"1.0\"?><model xmlns=\"http://www.cellml.org/cellml/1.1#\" name=\"lib\"><units name=\"uu\"><unit units=\"second\" exponent=\"abc\"/></units><component name=\"cc\"><variable name=\"v\" units=\"uu\" initial_value=\"1.2.3\"/></component></model>";
+            break;
+        case 9: // 1.0 AND an error in something that is NOT imported
+            content = "<?xml version=\"1.0\"?><model xmlns=\"http://www.cellml.org/cellml/1.0#\" name=\"lib\"><units name=\"other\"><unit units=\"second\" exponent=\"abc\"/></units><units name=\"uu\"><unit units=\"second\"/></units><component name=\"cc\"><variable name=\"v\" units=\"uu\"/></component><component name=\"dd\"><variable name=\"w\" units=\"second\" initial_value=\"x y\"/></component></model>";
             break;
         default: // 1.1 with junk elements: messages + errors
             content = "<?xml version=\"1.0\"?><model xmlns=\"http://www.cellml.org/cellml/1.1#\" name=\"lib\"><junk/><units name=\"uu\"><unit units=\"second\"/></units><component name=\"cc\"><variable name=\"v\" units=\"uu\" weird=\"1\"/><reaction/></component></model>";
